@@ -18,7 +18,8 @@ if [ "$SUITE" = "--suite" ]; then
   BASELINE_REPO=$W BASELINE_JOBS=${JOBS:-0} /venv/bin/python /verif/tools/baseline.py 2>&1 | grep -v WARN | tail -6
 fi
 cp -r /verif $VC; rm -rf $VC/.git $VC/evidence $VC/replay
-for P in ${CHECKS:-$PID}; do
+CW=$(/venv/bin/python -c "import json;print(json.load(open('$D/meta.json')).get('validation',{}).get('check_with',''))" 2>/dev/null)
+for P in ${CHECKS:-${CW:-$PID}}; do
   ( cd $VC && FLOX_REPO=$W timeout 3000 ./check $P --tier ${TIER:-quick} 2>&1 | grep -v WARN | tail -3
     for r in $(ls -t replay/$P-*.json 2>/dev/null | head -1); do /venv/bin/python -c "
 import json,sys; d=json.load(open('$r')); print('replay kind=%s n_failing=%s detail=%s' % (d.get('kind'), d.get('n_failing'), str(d.get('detail') or d.get('no_longer_checks'))[:400]))"; done )
